@@ -586,6 +586,24 @@ Proof.
   rewrite firstn_app_len by (rewrite skipn_length; lia). symmetry. apply starts_with_app, S.
 Qed.
 
+Lemma skipn_split {A} a b (l : list A) : (a <= b)%nat -> skipn a l = slice a b l ++ skipn b l.
+Proof.
+  intros H. unfold slice. replace (skipn b l) with (skipn (b - a) (skipn a l)).
+  symmetry. apply firstn_skipn. rewrite <- skipn_add. f_equal. lia.
+Qed.
+
+Lemma be_decode_single (l : bytes) : length l = 1%nat -> [n2b (be_decode l)] = l.
+Proof.
+  destruct l as [|b [|c r]]; try discriminate. intros _. unfold be_decode. cbn [rev app le_decode].
+  f_equal. rewrite N.mul_0_r, N.add_0_r. apply n2b_b2n.
+Qed.
+
+Lemma catch_value_inv m o : catch_value m = Ret (Some o) -> m = Ret o.
+Proof. destruct m; cbn; try discriminate. intros H; inversion H; reflexivity. destruct (is_value_error e); discriminate. Qed.
+
+Lemma key_material_public_inv pt k : key_material_public pt = Ret k -> k = Pub pt.
+Proof. unfold key_material_public. destruct (on_curve _); [|discriminate]. intros H; inversion H; reflexivity. Qed.
+
 Section Reser.
 Variable mulG : Z -> Z * Z.
 Variable modsqrt : Z -> Z.
@@ -643,28 +661,14 @@ Proof.
   - destruct (land1_cases (modsqrt (((x ^ 3) mod curve_p + curve_a * x + curve_b) mod curve_p))); [contradiction|assumption].
 Qed.
 
-Lemma skipn_split {A} a b (l : list A) : (a <= b)%nat -> skipn a l = slice a b l ++ skipn b l.
-Proof.
-  intros H. unfold slice. replace (skipn b l) with (skipn (b - a) (skipn a l)).
-  symmetry. apply firstn_skipn. rewrite <- skipn_add. f_equal. lia.
-Qed.
 
-Lemma be_decode_single (l : bytes) : length l = 1%nat -> [n2b (be_decode l)] = l.
-Proof.
-  destruct l as [|b [|c r]]; try discriminate. intros _. unfold be_decode. cbn [rev app le_decode].
-  f_equal. rewrite N.mul_0_r, N.add_0_r. apply n2b_b2n.
-Qed.
 
-Lemma catch_value_inv m o : catch_value m = Ret (Some o) -> m = Ret o.
-Proof. destruct m; cbn; try discriminate. intros H; inversion H; reflexivity. destruct (is_value_error e); discriminate. Qed.
 
 Lemma key_material_private_inv se k : key_material_private mulG se = Ret k -> exists pt, k = Prv se pt.
 Proof.
   unfold key_material_private. destruct (valid_exponent se); [|discriminate]. destruct (on_curve _); [|discriminate].
   intros H; inversion H; eauto.
 Qed.
-Lemma key_material_public_inv pt k : key_material_public pt = Ret k -> k = Pub pt.
-Proof. unfold key_material_public. destruct (on_curve _); [|discriminate]. intros H; inversion H; reflexivity. Qed.
 
 (* a 33-byte SEC that decodes re-encodes (compressed) to itself *)
 Lemma sec33_roundtrip sec pt :
@@ -1037,3 +1041,76 @@ Proof. split; vm_compute; reflexivity. Qed.
 
 Local Opaque Z.pow Z.modulo Z.mul Z.add Z.sub Z.land.
 
+(* ---------------------------------------------------------------------------------------------- *)
+(* public keys parsed by sec(): the text form minus the network's SEC prefix parses back *)
+Lemma hexval_hexdigit v : (v < 16)%N -> hexval (hexdigit v) = Some v.
+Proof.
+  intros H. unfold hexval, hexdigit. destruct (N.ltb_spec v 10).
+  - replace (48 <=? 48 + v)%N with true by (symmetry; apply N.leb_le; lia).
+    replace (48 + v <=? 57)%N with true by (symmetry; apply N.leb_le; lia). cbn [andb]. f_equal. lia.
+  - replace (87 + v <=? 57)%N with false by (symmetry; apply N.leb_gt; lia). rewrite andb_false_r.
+    replace (97 <=? 87 + v)%N with true by (symmetry; apply N.leb_le; lia).
+    replace (87 + v <=? 102)%N with true by (symmetry; apply N.leb_le; lia). cbn [andb]. f_equal. lia.
+Qed.
+
+Lemma h2b_b2h b : h2b (b2h b) = Some b.
+Proof.
+  induction b as [|x r IH]. reflexivity.
+  cbn [b2h h2b]. pose proof (b2n_lt x) as Hx.
+  rewrite !hexval_hexdigit, IH.
+  - f_equal. f_equal. rewrite <- (n2b_b2n x) at 3. f_equal. symmetry. apply N.div_mod'.
+  - apply N.mod_lt. discriminate.
+  - apply N.div_lt_upper_bound. discriminate. exact Hx.
+Qed.
+
+Section SecReser.
+Variable modsqrt : Z -> Z.
+
+Lemma catch_all_inv m o : catch_all m = Ret (Some o) -> m = Ret o.
+Proof. destruct m; cbn; try discriminate. intros [= <-]. reflexivity. Qed.
+
+Lemma take1_cases (b : bytes) x : bytes_eqb (take 1 b) [x] = true -> exists r, b = x :: r.
+Proof.
+  intros H. apply bytes_eqb_eq in H. destruct b as [|y r]; [discriminate|]. cbn in H. injection H as ->. eauto.
+Qed.
+
+Lemma key_from_sec_bytes b o :
+  key_from_sec modsqrt b = Ret o ->
+  exists pt, o = OKey (Pub pt) (is_sec_compressed b) /\ sec_bytes pt (is_sec_compressed b) = Ret b.
+Proof.
+  unfold key_from_sec. destruct (sec_to_public_pair modsqrt b) as [pt| |] eqn:S; cbn [bind]; try discriminate.
+  destruct (key_material_public pt) as [k| |] eqn:K; cbn [bind]; try discriminate.
+  apply key_material_public_inv in K; subst k. intros [= <-]. exists pt. split; [reflexivity|].
+  pose proof S as S'. unfold sec_to_public_pair in S.
+  destruct (curve_p <=? _) eqn:X; [discriminate|].
+  destruct (Nat.eqb (length b) 65) eqn:L65.
+  - apply Nat.eqb_eq in L65. destruct (bytes_eqb (take 1 b) [x04]) eqn:E4; [|discriminate].
+    destruct (curve_p <=? from_bytes (slice 33 65 b)); [discriminate|]. injection S as <-.
+    destruct (take1_cases _ _ E4) as [r ->].
+    unfold is_sec_compressed. cbn [take firstn bytes_eqb byte_eqb]. 
+    replace (byte_eqb x04 x02) with false by reflexivity. replace (byte_eqb x04 x03) with false by reflexivity.
+    cbn [andb orb]. unfold sec_bytes. cbn [fst snd].
+    assert (L1 : length (slice 1 33 (x04 :: r)) = 32%nat) by (apply slice_length; lia).
+    assert (L2 : length (slice 33 65 (x04 :: r)) = 32%nat) by (apply slice_length; lia).
+    rewrite (to_from_bytes_32 _ L1). cbn [bind]. rewrite (to_from_bytes_32 _ L2). cbn [bind].
+    f_equal. f_equal. change (slice 1 33 (x04 :: r)) with (slice 0 32 r). change (slice 33 65 (x04 :: r)) with (slice 32 64 r).
+    cbn [length] in L65. rewrite <- (skipn_O r) at 3. rewrite (skipn_split 0%nat 32%nat) by lia. f_equal.
+    rewrite (skipn_split 32%nat 64%nat) by lia. rewrite (skipn_all2 (n := 64%nat)) by lia. symmetry. apply app_nil_r.
+  - destruct (Nat.eqb (length b) 33) eqn:L33; [|discriminate]. apply Nat.eqb_eq in L33.
+    assert (C : is_sec_compressed b = true).
+    { unfold is_sec_compressed. destruct (bytes_eqb (take 1 b) [x02] || bytes_eqb (take 1 b) [x03]); [reflexivity|discriminate]. }
+    rewrite C. unfold sec_bytes. apply (sec33_roundtrip (fun _ => (0, 0)) modsqrt); assumption.
+Qed.
+
+Lemma sec_reserialize_without_prefix net s o :
+  sec modsqrt net s = Ret (Some o) ->
+  exists t, public_key_text net o = Ret (n_sec_prefix net ++ t) /\ sec modsqrt net t = Ret (Some o).
+Proof.
+  unfold sec. destruct (h2b s) as [b|]; [|discriminate]. intros H. apply catch_all_inv in H.
+  destruct (key_from_sec_bytes b o H) as (pt & -> & Hb).
+  exists (b2h b). split.
+  - unfold public_key_text. rewrite Hb. reflexivity.
+  - rewrite h2b_b2h, H. reflexivity.
+Qed.
+
+End SecReser.
